@@ -56,7 +56,7 @@ theorem one_reply (cfg : Cfg) (hfix : cfg.fx.append = true) (s s1 : S)
     split at h
     · cases h
     · rename_i hh hne
-      generalize hrun : runHandler (handlerOf cfg name) s2 = p3 at h
+      generalize hrun : runHandler name (handlerOf cfg name) s2 = p3 at h
       obtain ⟨bu, e, s3⟩ := p3
       dsimp only at h
       split at h
@@ -92,7 +92,7 @@ theorem no_reply_when_dropped (cfg : Cfg) (s s1 : S) (h : readCommand cfg s = (f
     split at h
     · cases h
       exact ⟨Event.opaque :: n1, by simp [S.emit, hn1, S.reset], by simp [isTagged, hf1]⟩
-    · generalize hrun : runHandler (handlerOf cfg name) s2 = p3 at h
+    · generalize hrun : runHandler name (handlerOf cfg name) s2 = p3 at h
       obtain ⟨bu, e, s3⟩ := p3
       dsimp only at h
       split at h
